@@ -1,7 +1,7 @@
 (** C15 - extension lemmas: the FTRL weight denominator (finding F-C15-1: it vanishes exactly at beta = 0, l2 = 0,
     n = 0, inside the guarded parameter ranges) and the zero-weight clause in every arithmetic. *)
 From Coq Require Import List NArith Reals Lra Lia Arith Bool Floats SpecFloat.
-From LinfaVerif Require Import Common.Num Common.NdSum Common.B32 Common.Fma C09.Model C15.Model C15.Spec C15.ProofsKF.
+From LinfaVerif Require Import Common.Num Common.NdSum Common.B32 Common.Fma C09.Model C15.Model C15.Spec C15.ProofsStat C15.ProofsKF C15.ProofsT2.
 Import ListNotations.
 Local Open Scope R_scope.
 
@@ -80,4 +80,20 @@ Example ex_default_outside_corner :
   ftrl_guard p /\ ~ (f_beta p = 0 /\ f_l2 p = 0 /\ 0 = 0).
 Proof.
   cbv zeta. unfold ftrl_guard. cbn [f_alpha f_beta f_l1 f_l2]. split; [repeat split; lra|]. intros [_ [H _]]. lra.
+Qed.
+
+(** * memory layouts (robustness sweep): the layout-aware variants extend the standard-layout models, and over
+      the reals the layout-dependent dot kernel does not change the gradient *)
+Lemma ftrl_gradient_lay_std {F} (o : NumOps F) d (X : list (list F)) y ps :
+  ftrl_gradient o d X y ps = ftrl_gradient_lay o (orb (Nat.eqb d 1) (Nat.leb (length X) 1)) d X y ps.
+Proof. reflexivity. Qed.
+Lemma km_fit_with_lay_std {F} (o : NumOps F) m tol st (X : list (list F)) :
+  km_fit_with_lay o false m tol st X = km_fit_with o m tol st X.
+Proof. reflexivity. Qed.
+Lemma ftrl_gradient_lay_R contig d (X : list (list R)) (y : list bool) (ps : list R) :
+  ftrl_gradient_lay R_ops contig d X y ps =
+    map (fun j => dotsum (col R_ops j X) (map2 (fun pr (t : bool) => pr - (if t then 1 else 0)) ps y)) (seq 0 d).
+Proof.
+  unfold ftrl_gradient_lay. rewrite cols_map. apply map_ext. intros j.
+  destruct contig; [apply udot_R|apply sdot_R].
 Qed.
